@@ -256,7 +256,7 @@ def build(spec):
         return o
     if kind == "attrdict":                     # the library's default container (attribute and item access in sync)
         from xdeps.utils import AttrDict
-        d = AttrDict()
+        d = AttrDict() if len(spec["items"]) % 2 else make_attrdict_sub()()          # ... or a user subclass of it
         for k, v in spec["items"]:
             d[k] = build(v)
         return d
@@ -305,6 +305,26 @@ def mkref(roots, path):
     return r
 
 
+def make_attrdict_sub():
+    """a user subclass of the library's AttrDict with behaviour of its own (a method and a write counter)"""
+    if "FAttrDict" not in globals():
+        from xdeps.utils import AttrDict
+
+        class FAttrDict(AttrDict):
+            writes = 0
+
+            def __setitem__(self, k, v):
+                type(self).writes += 1
+                AttrDict.__setitem__(self, k, v)
+
+            def total(self):
+                return len(self)
+        FAttrDict.__module__ = __name__
+        FAttrDict.__qualname__ = "FAttrDict"
+        globals()["FAttrDict"] = FAttrDict
+    return globals()["FAttrDict"]
+
+
 class WriteAction:
     """the action of a generated FunctionTask: a picklable callable (a manager holding it can be pickled)"""
 
@@ -314,6 +334,9 @@ class WriteAction:
     def __call__(self):
         for r, e in self.writes:
             r._set_value(e._get_value() if isinstance(e, BaseRef) else e)
+
+    def update(self):          # the same action as a bound method of an object nobody else refers to
+        self()
 
 
 def make_roots(m2, data2):
@@ -404,7 +427,8 @@ _orig_toposort = xt.toposort
 
 def _toposort(graph, start=None):
     if isinstance(start, set):
-        start = list(start)          # fixes and records the iteration order
+        # the iteration order of the (unmodified) set object is recorded; the set itself is passed on, so that code
+        # depending on the TYPE of the start collection behaves as in production
         STARTS.append([tid_path(t) for t in start])
     return _orig_toposort(graph, start)
 
@@ -487,6 +511,33 @@ def consistency(m):
                 continue
             if repr(want) != repr(have) or type(want) is not type(have):
                 bad.append([ref_path(tid), have if isinstance(have, int) else repr(have), want if isinstance(want, int) else repr(want)])
+    return bad
+
+
+FUNWRITES = {}
+
+
+def fun_consistency(m, trace):
+    """each target of a function task that ran in this update holds what the task prescribes (the harness's function tasks
+    perform writes target := expression); targets with a second writer are left out"""
+    bad = []
+    ran = {json.dumps(x) for x in trace}
+    for tid, t in m.tasks.items():
+        if not isinstance(t, FunctionTask) or json.dumps(tid_path(tid)) not in ran:
+            continue
+        writes = FUNWRITES.get(json.dumps(tid_path(tid)))      # what the harness registered, not what the task object holds
+        if writes is None:
+            continue
+        for r, e in writes:
+            if len(m.tartasks[r]) != 1:
+                continue
+            try:
+                want = e._get_value() if isinstance(e, BaseRef) else e
+                have = r._get_value()
+            except Exception:
+                continue
+            if repr(want) != repr(have):
+                bad.append([ref_path(r), have if isinstance(have, int) else repr(have), want if isinstance(want, int) else repr(want), "fun"])
     return bad
 
 
@@ -686,6 +737,29 @@ def pickle_check(m, roots_data, followups):
         problems.append(f"state of the linear-knob tasks differs: original {knob_state(m)[:3]}, restored {knob_state(m2)[:3]}")
     if sorted((str(k), type(t).__name__) for k, t in m.tasks.items()) != sorted((str(k), type(t).__name__) for k, t in m2.tasks.items()):
         problems.append("task ids / task classes differ")
+    def classes(mm):
+        out = []
+
+        def walk(o, pre):
+            out.append((pre, type(o).__name__))
+            if isinstance(o, dict):
+                for k, v in o.items():
+                    walk(v, pre + "/" + str(ek(k)))
+            elif isinstance(o, FUserDict):
+                for k, v in o.data.items():
+                    walk(v, pre + "/" + str(ek(k)))
+            elif isinstance(o, list):
+                for i, v in enumerate(o):
+                    walk(v, pre + "/" + str(i))
+            elif isinstance(o, FObj):
+                for k, v in vars(o).items():
+                    walk(v, pre + "/" + k)
+        for label, r in mm.containers.items():
+            walk(r._owner, label)
+        return out
+    if classes(m2) != classes(m):
+        diff = [(a, b) for a, b in zip(classes(m), classes(m2)) if a != b][:3]
+        problems.append(f"classes of containers / values differ after the round trip (original, restored): {diff}")
     if bool(m2._tree_frozen) != bool(m._tree_frozen):
         problems.append(f"frozen state differs: original {m._tree_frozen!r}, restored {m2._tree_frozen!r}")
     c1, c2 = counts(m), counts(m2)
@@ -724,6 +798,60 @@ def pickle_check(m, roots_data, followups):
     except Exception as e:
         problems.append(f"verify() after the follow-up raised {type(e).__name__}: {str(e)[:100]}")
     return {"problems": problems}
+
+
+CLONES = []
+
+
+def clone_check(m, clones, roots, roots_data, followups):
+    """C03: a clone made earlier keeps behaving like a fresh manager holding the definitions it was made with, whatever
+    was removed or replaced in the original since (and vice versa: the original is not affected by its clones).
+    The clone shares the containers; each follow-up is assigned through the clone and through a reference manager
+    freshly loaded with the clone's dump, on a deep copy of the data taken just before."""
+    import copy
+    res = {"problems": []}
+    if not clones:
+        return res
+    c = clones[-1]
+    if not all(isinstance(t, ExprTask) for t in c.tasks.values()):
+        return {"skipped": "non-expression tasks"}
+    try:
+        c.verify()
+    except Exception as e:
+        res["problems"].append(f"verify() of the clone raised {type(e).__name__}: {str(e)[:80]}")
+    croots = dict(c.containers)
+    for p, v in followups:
+        data2 = copy.deepcopy(roots_data)
+        m2 = xd.Manager()
+        roots2 = make_roots(m2, data2)
+        try:
+            m2.load(c.dump())
+        except Exception as e:
+            res["problems"].append(f"dump of the clone does not load: {type(e).__name__}"); break
+        e1 = e2 = None
+        try:
+            sd = mkref(croots, p)._get_dependencies()
+            if order_cycle(triggered(c, sd)):
+                res["cycle"] = True
+            c.set_value(mkref(croots, p), dv(v))
+        except Exception as e:
+            e1 = exc_name(e)
+        try:
+            m2.set_value(mkref(roots2, p), dv(v))
+        except Exception as e:
+            e2 = exc_name(e)
+        sa, sb = [], []
+        for label in roots_data:
+            flatten(roots_data[label], [label], sa)
+            flatten(data2[label], [label], sb)
+        if e1 != e2 or sa != sb:
+            res["problems"].append([p, v, e1, e2, [x for x, y in zip(sa, sb) if x != y][:3], [y for x, y in zip(sa, sb) if x != y][:3]])
+            break
+    try:
+        m.verify()
+    except Exception as e:
+        res["problems"].append(f"verify() of the original raised {type(e).__name__} after the clone was used")
+    return res
 
 
 def fresh_check(m, roots, roots_data, leaves, followups):
@@ -780,7 +908,7 @@ def run_case(case, opts):
     SELFDEP.clear()
     m = xd.Manager()
     roots, roots_data = {}, {}
-    ROOTKIND.clear(); ENVS.clear()
+    ROOTKIND.clear(); ENVS.clear(); del CLONES[:]; FUNWRITES.clear()
     for label, spec in case["store"]:
         data = build(spec)
         roots_data[label] = data
@@ -835,6 +963,9 @@ def run_case(case, opts):
             elif kind == "regfun":
                 action = WriteAction([(mkref(roots, p), mkexpr(roots, e)) for p, e in op[4]])
                 fid = op[1] if isinstance(op[1], str) else mkref(roots, op[1]["ref"])
+                FUNWRITES[json.dumps(tid_path(fid))] = list(action.writes)
+                if (len(op[4]) + len(str(op[1]))) % 2:
+                    action = action.update       # a bound method; its instance is referenced by the task only
                 if any(p in op[3] for p in op[2]):
                     SELFDEP.add(fid)          # not idempotent: a genuine data-flow cycle
                 # targets and dependencies closed under enclosing containers, as ExprTask computes them
@@ -846,7 +977,17 @@ def run_case(case, opts):
                 m.register(FunctionTask(fid, action, tars, deps))
             elif kind == "regknob":
                 kid = op[1] if isinstance(op[1], str) else mkref(roots, op[1]["ref"])
-                m.register(LinearKnob(kid, mkref(roots, op[2]), [w for w, _ in op[3]], [mkref(roots, p) for _, p in op[3]]))
+                if len(op) > 4 and op[4] == "set" and len({json.dumps(p) for _, p in op[3]}) == len(op[3]):
+                    # Task.targets is documented as a set: the targets as a set built incrementally, the weights listed in
+                    # the order in which that set iterates
+                    tset = set()
+                    byref = {}
+                    for w, p in op[3]:
+                        r = mkref(roots, p)
+                        tset.add(r); byref[r] = w
+                    m.register(LinearKnob(kid, mkref(roots, op[2]), [byref[r] for r in tset], tset))
+                else:
+                    m.register(LinearKnob(kid, mkref(roots, op[2]), [w for w, _ in op[3]], [mkref(roots, p) for _, p in op[3]]))
             elif kind == "unregister":
                 tid = op[1][1] if op[1][0] == "$task" else mkref(roots, op[1])
                 m.unregister(tid)
@@ -873,6 +1014,11 @@ def run_case(case, opts):
                 obs["genfun"] = gen_fun_check(m, roots, roots_data, op[1], op[2], obs)
                 if obs["genfun"].get("err"):
                     obs["err"] = obs["genfun"]["err"]
+            elif kind == "clone":
+                # a regenerated copy is kept alive; it shares the containers with the original
+                CLONES.append(m.clone())
+            elif kind == "useclone":
+                obs["clone"] = clone_check(m, CLONES, roots, roots_data, op[1])
             elif kind == "freshcheck":
                 obs["fresh"] = fresh_check(m, roots, roots_data, op[1], op[2])
             elif kind == "arm":
@@ -919,6 +1065,8 @@ def run_case(case, opts):
                 orc["trace"] = trace_verdict(m, sd_refs, obs["trace"], obs["err"])
             if obs["err"] is None:
                 orc["inconsistent"] = consistency(m)
+                if kind in ("set", "inplace") and not (orc.get("trace") or {}).get("cycle"):
+                    orc["fun_inconsistent"] = fun_consistency(m, obs["trace"])
         obs["oracle"] = orc
         FAULT["n"] = saved
         out.append(obs)
